@@ -94,6 +94,9 @@ def check_run(run, res: Result, case):
     viol: dict[tuple, str] = {}
     prev_tt: dict[str, float] = {}
     judged_tags: set[str] = set()
+    rest_seen: set[tuple] = set()
+    res.count("runs_tot_" + str(case.get("tot_kind", "linear")))
+    res.count("runs_uod_" + str(case.get("uod", "vol")))
     if run.tick_exceptions:
         res.count("runs_with_tick_exception")
     res.count("hook_miss", run.hook_miss)
@@ -122,6 +125,15 @@ def check_run(run, res: Result, case):
                 lo_k, hi_k = run.window(k)
                 if info["chg_unmask"]:
                     res.count("unmask_checks")          # last change = end of a simulation
+                if info.get("tot_rest_in_chg_tick") and (name, k) not in rest_seen:
+                    # block accumulator (Block Volume / Block CV) whose value changed in a tick in which its totalizer
+                    # stood still: the change is a switch between the accumulators of two block scopes
+                    rest_seen.add((name, k))
+                    res.count("block_acc_switch_at_rest")
+                    res.count("block_acc_switch_at_rest_tag:" + name)
+                    if info["value"] != 0:
+                        res.count("block_acc_switch_at_rest_to_nonzero")      # back to a scope that holds volume
+                        res.count("block_acc_switch_at_rest_to_nonzero_tag:" + name)
                 if lo_k <= tt < hi_k:
                     res.count("window_ok")
                 elif info["chg_unmask"]:
